@@ -45,7 +45,18 @@ def main():
             by = "; ".join(bys)
         files = ", ".join(os.path.basename(f) for f in meta.get("files_changed", []))
         rows.append(f"| {name} | {files} | {short(meta.get('summary', ''), 230)} | {verdict} | {short(by, 120)} | {short(note, 200)} |")
-    table = ["| seed | file(s) | change | result of `./check` (quick) | first failure class | note |",
+    total = len(rows)
+    det = sum(1 for r in rows if "| detected |" in r)
+    first_missed = 0
+    for d in sorted(glob.glob(os.path.join(VERIF, "seeded", "C*-*"))):
+        np_ = os.path.join(d, "note.txt")
+        if os.path.exists(np_) and "missed at first" in open(np_).read():
+            first_missed += 1
+    summary = (f"Summary: {total} seeded regressions, {det} detected by the committed checks "
+               f"({first_missed} of them only after the generator / oracle was strengthened - see the notes), "
+               f"{total - det} not detected or not evaluated.")
+    table = [summary, "",
+             "| seed | file(s) | change | result of `./check` (quick) | first failure class | note |",
              "|---|---|---|---|---|---|"] + rows
     p = os.path.join(VERIF, "DESIGN.md")
     s = open(p).read()
